@@ -29,6 +29,7 @@
 #include <stdint.h>
 
 #include "cmb_assert.h"
+#include "cmb_event.h"
 #include "cmb_resourceguard.h"
 #include "cmb_timeseries.h"
 
@@ -156,6 +157,16 @@ static inline bool cmb_priorityqueue_cancel(struct cmb_priorityqueue *pqp,
 
     struct cmi_hashheap *hp = &(pqp->queue);
     const bool found = cmi_hashheap_remove(hp, handle);
+    if (found) {
+        /* The queue got shorter: note it, and let a waiting putter know */
+        if (pqp->is_recording) {
+            (void)cmb_timeseries_add(&(pqp->history),
+                                     (double)(hp->heap_count),
+                                     cmb_time());
+        }
+
+        (void)cmb_resourceguard_signal(&(pqp->rear_guard));
+    }
 
     return found;
 }
